@@ -294,7 +294,7 @@ def register(reg):
         props = ("C03", "C16", "C15")
         params = {"timeout": "val", "event": "ref:" + EV}
         modifies = ("NS.written", "H.our", "H.wire")
-        raises = NET_WRITE_RAISES + ["h11.LocalProtocolError", "Cancelled"]
+        raises = NET_WRITE_RAISES + [LPE, "Cancelled"]
         raises_props = ("C15",)
 
         def ensures(self, c):
@@ -307,7 +307,7 @@ def register(reg):
             stream = c.new(c.self, "H11._network_stream")
             w0 = F(c, stream, "NS.written", old=True)
             w1 = F(c, stream, "NS.written")
-            if exc.cls == "h11.LocalProtocolError":
+            if exc.cls in ("h11.LocalProtocolError", LPE):
                 return [("rejected_event_writes_nothing", ("C03",), w1 == w0)]
             return []
 
@@ -338,7 +338,7 @@ def register(reg):
         key = H11 + "._send_request_headers"
         props = ("C03", "C16", "C15")
         modifies = ("NS.written", "H.our", "H.wire")
-        raises = NET_WRITE_RAISES + [LPE, "h11.LocalProtocolError", "Cancelled"]
+        raises = NET_WRITE_RAISES + [LPE, "Cancelled"]
         raises_props = ("C15",)
 
         def exc_ensures(self, c, exc):
@@ -373,7 +373,9 @@ def register(reg):
 
         def exc_checks(self, c, exc):
             if exc.cls == LPE:
-                return [("nothing_sent_when_head_rejected", ("C03",), len(c.events("call:" + H11 + "._send_event")) == 0)]
+                # stated over the wire (NS.written), not over which helper ran: h11 may also reject the event in send()
+                stream = c.new(c.self, "H11._network_stream")
+                return [("nothing_sent_when_head_rejected", ("C03",), F(c, stream, "NS.written") == F(c, stream, "NS.written", old=True))]
             return []
 
     # ------------------------------------------------------------------ _send_request_body
@@ -382,7 +384,7 @@ def register(reg):
         key = H11 + "._send_request_body"
         props = ("C03", "C16", "C15")
         modifies = ("NS.written", "H.our", "H.wire")
-        raises = NET_WRITE_RAISES + ["h11.LocalProtocolError", "Cancelled"]
+        raises = NET_WRITE_RAISES + [LPE, "Cancelled"]
         raises_props = ("C15",)
 
         def requires(self, c):
